@@ -46,9 +46,9 @@ Lemma field_rel_keys : forall T T' R, field_rel T T' R -> same_keys T T'.
 Proof. intros T T' R H k. specialize (H k). destruct (T k), (T' k); split; intros; try congruence; try contradiction. Qed.
 
 (* ---- field updates as data ------------------------------------------------------------------------ *)
-Inductive fop := OLeft | OExt | OProb (p : Z).
+Inductive fop := OLeft | OExt | OProb (p : Z) | ORest (v : Z).
 Definition interp (o : fop) : entry -> entry :=
-  match o with OLeft => set_left | OExt => set_ext | OProb p => set_prob p end.
+  match o with OLeft => set_left | OExt => set_ext | OProb p => set_prob p | ORest v => raise_rest v end.
 Definition apply_ops (ops : list (key * fop)) (t : atable) : atable :=
   fold_left (fun t op => aupdate t (fst op) (interp (snd op))) ops t.
 Definition app_ops (ops : list (key * fop)) (k : key) (e : entry) : entry :=
@@ -150,6 +150,41 @@ Qed.
 Lemma mark_left_is_ops : forall orders K t, mark_left orders K t = apply_ops (map (fun j => (firstn j K, OLeft)) orders) t.
 Proof. induction orders as [|j r IH]; intros K t; cbn [mark_left map]; [reflexivity|]. rewrite IH. reflexivity. Qed.
 
+(* ---- MaxRestBuild's MarkExtends chain and MarkLower only touch rest costs ----------------------------------- *)
+Definition rest_only (ops : list (key * fop)) : Prop := Forall (fun op => exists v, snd op = ORest v) ops.
+
+Lemma rest_only_app : forall a b, rest_only a -> rest_only b -> rest_only (a ++ b).
+Proof. intros. apply Forall_app. split; assumption. Qed.
+
+Lemma rest_only_has : forall ops k o, rest_only ops -> (forall v, o (ORest v) = false) -> has_op ops k o = false.
+Proof.
+  induction ops as [|[k0 o0] ops IH]; intros k o H Ho; [reflexivity|]. inversion H as [|? ? [v Hv] H']. subst.
+  cbn [has_op existsb fst snd] in *. cbn [snd] in Hv. subst o0. rewrite Ho, andb_false_r. cbn [orb]. apply IH; assumption.
+Qed.
+
+Lemma rest_only_prob : forall ops k e, rest_only ops -> e_prob (app_ops ops k e) = e_prob e.
+Proof. intros ops k e H. apply app_ops_prob_none. apply rest_only_has; [exact H|reflexivity]. Qed.
+
+Lemma rest_chain_ops : forall orders K longer t, exists ops, rest_only ops /\ rest_chain orders K longer t = apply_ops ops t.
+Proof.
+  induction orders as [|j r IH]; intros K longer t; cbn [rest_chain].
+  - exists []. split; [constructor|reflexivity].
+  - destruct (IH K (rest_of (aupdate t (firstn j K) (raise_rest longer)) (firstn j K)) (aupdate t (firstn j K) (raise_rest longer))) as [ops [H1 H2]].
+    exists ((firstn j K, ORest longer) :: ops). split; [constructor; [exists longer; reflexivity|exact H1]|].
+    rewrite H2. reflexivity.
+Qed.
+
+Lemma mark_lower_ops : forall j K longer t, exists ops, rest_only ops /\ mark_lower j K longer t = apply_ops ops t.
+Proof.
+  induction j as [|j IH]; intros K longer t; cbn [mark_lower].
+  - exists []. split; [constructor|reflexivity].
+  - destruct (rest_of t (firstn (S j) K) >=? longer).
+    + exists []. split; [constructor|reflexivity].
+    + destruct (IH K longer (aupdate t (firstn (S j) K) (raise_rest longer))) as [ops [H1 H2]].
+      exists ((firstn (S j) K, ORest longer) :: ops). split; [constructor; [exists longer; reflexivity|exact H1]|].
+      rewrite H2. reflexivity.
+Qed.
+
 (* ---- FindLower ----------------------------------------------------------------------------------------- *)
 Definition blank_key (b j : nat) (K k : key) : bool := existsb (fun i => key_eqb (firstn i K) k) (seq (S b) (j - b)).
 
@@ -218,19 +253,19 @@ Definition T0_of (T : table) (g : gram) : table :=
   fun k => match T k with Some e => Some e | None => if key_eqb (g_key g) k then Some (mk_entry (g_prob g) (g_bo g)) else None end.
 Definition T1_of (T : table) (g : gram) (b n : nat) : table :=
   fun k => match T0_of T g k with Some e => Some e | None => if blank_key b (n - 1) (g_key g) k then Some blank_entry else None end.
-Definition ops_of (T1 : table) (K : key) (b n : nat) : list (key * fop) :=
+Definition ops_of (T1 : table) (K : key) (b n : nat) (R : list (key * fop)) : list (key * fop) :=
   adj_ops T1 (n - 1 - b) (S b) K (match T1 (firstn b K) with Some e => e_prob e | None => 0 end) ++
-  map (fun j => (firstn j K, OLeft)) (seq b (n - b)) ++ [(tl K, OExt)].
+  map (fun j => (firstn j K, OLeft)) (seq b (n - b)) ++ R ++ [(tl K, OExt)].
 
-Lemma add_gram_spec : forall buckets n g t t', (2 <= n)%nat -> length (g_key g) = n ->
-  add_gram buckets false n g t = Loaded t' ->
-  exists b, (1 <= b <= n - 1)%nat /\
+Lemma add_gram_spec : forall buckets rm n g t t', (2 <= n)%nat -> length (g_key g) = n ->
+  add_gram buckets rm n g t = Loaded t' ->
+  exists b R, rest_only R /\ (1 <= b <= n - 1)%nat /\
     (b = 1%nat \/ T0_of (alookup t) g (firstn b (g_key g)) <> None) /\
     (forall i, (b < i <= n - 1)%nat -> T0_of (alookup t) g (firstn i (g_key g)) = None) /\
     T1_of (alookup t) g b n (tl (g_key g)) <> None /\
-    forall k, alookup t' k = option_map (app_ops (ops_of (T1_of (alookup t) g b n) (g_key g) b n) k) (T1_of (alookup t) g b n k).
+    forall k, alookup t' k = option_map (app_ops (ops_of (T1_of (alookup t) g b n) (g_key g) b n R) k) (T1_of (alookup t) g b n k).
 Proof.
-  intros buckets n g t t' Hn Hlen H. unfold add_gram in H.
+  intros buckets rm n g t t' Hn Hlen H. unfold add_gram in H.
   destruct (Nat.leb (cap buckets n) (S (count_order t n))); [discriminate|].
   destruct (find_lower buckets (n - 1) (g_key g) (t ++ [(g_key g, mk_entry (g_prob g) (g_bo g))])) as [[t1 b]|] eqn:EF; [|discriminate].
   assert (Hjl : (n - 1 <= length (g_key g))%nat) by lia.
@@ -239,7 +274,6 @@ Proof.
   { intros k. rewrite alookup_snoc. reflexivity. }
   assert (HT1 : forall k, alookup t1 k = T1_of (alookup t) g b n k).
   { intros k. rewrite F5. unfold T1_of. rewrite HT0. reflexivity. }
-  exists b. split; [lia|]. split; [rewrite <- HT0; exact F3|]. split; [intros i Hi; rewrite <- HT0; apply F4; exact Hi|].
   set (K := g_key g) in *.
   set (t2 := if Nat.eqb b (n - 1) then t1
              else adjust (n - 1 - b) (S b) K (match alookup t1 (firstn b K) with Some e => e_prob e | None => 0 end) t1) in H.
@@ -249,12 +283,25 @@ Proof.
     - apply adjust_is_ops. }
   rewrite mark_left_is_ops in H.
   set (t3 := apply_ops (map (fun j => (firstn j K, OLeft)) (seq b (n - b))) t2) in H.
-  destruct (alookup t3 (tl K)) as [ec|] eqn:Ec; [|discriminate]. injection H as <-.
-  assert (Hall : forall k, alookup (aupdate t3 (tl K) set_ext) k =
-                           option_map (app_ops (ops_of (T1_of (alookup t) g b n) K b n) k) (alookup t1 k)).
+  assert (HR : exists R, rest_only R /\
+            (if rm then mark_lower (b - 1) K (rest_of (rest_chain (rev (seq b (n - b))) K (g_prob g) t3) (firstn b K))
+                          (rest_chain (rev (seq b (n - b))) K (g_prob g) t3)
+             else t3) = apply_ops R t3).
+  { destruct rm.
+    - destruct (rest_chain_ops (rev (seq b (n - b))) K (g_prob g) t3) as [R1 [A1 A2]].
+      destruct (mark_lower_ops (b - 1) K (rest_of (rest_chain (rev (seq b (n - b))) K (g_prob g) t3) (firstn b K))
+                  (rest_chain (rev (seq b (n - b))) K (g_prob g) t3)) as [R2 [B1 B2]].
+      exists (R1 ++ R2). split; [apply rest_only_app; assumption|]. rewrite B2, A2. rewrite apply_ops_app. reflexivity.
+    - exists []. split; [constructor|reflexivity]. }
+  destruct HR as [R [HR1 HR2]]. rewrite HR2 in H.
+  set (t4 := apply_ops R t3) in H.
+  destruct (alookup t4 (tl K)) as [ec|] eqn:Ec; [|discriminate]. injection H as <-.
+  exists b, R. split; [exact HR1|]. split; [lia|]. split; [rewrite <- HT0; exact F3|]. split; [intros i Hi; rewrite <- HT0; apply F4; exact Hi|].
+  assert (Hall : forall k, alookup (aupdate t4 (tl K) set_ext) k =
+                           option_map (app_ops (ops_of (T1_of (alookup t) g b n) K b n R) k) (alookup t1 k)).
   { intros k.
-    change (aupdate t3 (tl K) set_ext) with (apply_ops [(tl K, OExt)] t3).
-    unfold t3. rewrite Ht2. rewrite <- !apply_ops_app. rewrite apply_ops_lookup.
+    change (aupdate t4 (tl K) set_ext) with (apply_ops [(tl K, OExt)] t4).
+    unfold t4, t3. rewrite Ht2. rewrite <- !apply_ops_app. rewrite apply_ops_lookup.
     unfold ops_of.
     rewrite (adj_ops_agree (alookup t1) (T1_of (alookup t) g b n)) by (intros k0; rewrite HT1; reflexivity).
     rewrite (HT1 (firstn b K)). reflexivity. }
@@ -431,16 +478,16 @@ Section Step.
       destruct k; [cbn in Hj; lia|]. destruct j; [lia|]. discriminate.
   Qed.
 
-  Lemma add_gram_pq : forall buckets n g t t', PQ (alookup t) n -> (2 <= n <= N_order)%nat -> length (g_key g) = n ->
+  Lemma add_gram_pq : forall buckets rm n g t t', PQ (alookup t) n -> (2 <= n <= N_order)%nat -> length (g_key g) = n ->
     (forall w, In w (g_key g) -> alookup t [w] <> None) ->
     (alookup t (g_key g) = None -> M (g_key g) = Some (g_prob g, g_bo g)) ->
-    add_gram buckets false n g t = Loaded t' ->
+    add_gram buckets rm n g t = Loaded t' ->
     PQ (alookup t') n /\ alookup t' (g_key g) <> None /\ (forall k, alookup t k <> None -> alookup t' k <> None).
   Proof.
-    intros buckets n g t t' Q Hn Hlen Hwords Hfirst Hadd.
-    destruct (add_gram_spec buckets n g t t' ltac:(lia) Hlen Hadd) as [b [Hb [Hbase [Hmiss [Hact Heq]]]]].
+    intros buckets rm n g t t' Q Hn Hlen Hwords Hfirst Hadd.
+    destruct (add_gram_spec buckets rm n g t t' ltac:(lia) Hlen Hadd) as [b [R [HRo [Hb [Hbase [Hmiss [Hact Heq]]]]]]].
     set (T := alookup t) in *. set (K := g_key g) in *.
-    set (T1 := T1_of T g b n) in *. set (OPS := ops_of T1 K b n) in *. set (T' := alookup t') in *.
+    set (T1 := T1_of T g b n) in *. set (OPS := ops_of T1 K b n R) in *. set (T' := alookup t') in *.
     assert (HKwc : exists w c, K = w :: c) by (destruct K as [|w c]; [cbn in Hlen; lia|exists w, c; reflexivity]).
     destruct HKwc as [w [c EK]].
     assert (Hlc : length c = (n - 1)%nat) by (rewrite EK in Hlen; cbn [length] in Hlen; lia).
@@ -498,25 +545,28 @@ Section Step.
         + apply K2. right. right. exists (i - 1)%nat. split; [lia|exact Hk']. }
     (* ---- what the updates do to each field *)
     set (p0 := match T1 (firstn b K) with Some e => e_prob e | None => 0 end) in *.
-    assert (HOPS : OPS = adj_ops T1 (n - 1 - b) (S b) K p0 ++ map (fun j => (firstn j K, OLeft)) (seq b (n - b)) ++ [(tl K, OExt)]) by reflexivity.
+    assert (HOPS : OPS = adj_ops T1 (n - 1 - b) (S b) K p0 ++ map (fun j => (firstn j K, OLeft)) (seq b (n - b)) ++ R ++ [(tl K, OExt)]) by reflexivity.
     assert (Fleft : forall k e1, e_left (app_ops OPS k e1) = orb (e_left e1) (existsb (fun j => key_eqb (firstn j K) k) (seq b (n - b)))).
     { intros k e1. rewrite app_ops_left. f_equal. rewrite HOPS. rewrite !has_op_app. rewrite adj_no_left. rewrite left_ops_has.
+      rewrite (rest_only_has R k is_left HRo) by reflexivity.
       cbn [is_left andb orb has_op existsb fst snd]. rewrite andb_false_r. rewrite !orb_false_r. reflexivity. }
     assert (Fext : forall k e1, e_ext (app_ops OPS k e1) = true <->
               (e_ext e1 = true \/ (exists i, (b < i <= n - 1)%nat /\ k = firstn (i - 1) (tl K) /\ T1 k <> None) \/ k = tl K)).
     { intros k e1. rewrite app_ops_ext. rewrite orb_true_iff. rewrite HOPS. rewrite !has_op_app. rewrite !orb_true_iff.
-      rewrite adj_ext. rewrite left_ops_has. cbn [is_ext andb has_op existsb fst snd]. rewrite andb_true_r, orb_false_r.
+      rewrite adj_ext. rewrite left_ops_has. rewrite (rest_only_has R k is_ext HRo) by reflexivity.
+      cbn [is_ext andb has_op existsb fst snd]. rewrite andb_true_r, orb_false_r.
       split.
-      - intros [H|[[i [Hi [Hk Hp]]]|[H|H]]]; [left; exact H| |discriminate|].
+      - intros [H|[[i [Hi [Hk Hp]]]|[H|[H|H]]]]; [left; exact H| |discriminate|discriminate|].
         + right. left. exists i. split; [lia|]. split; assumption.
         + right. right. apply key_eqb_true in H. congruence.
       - intros [H|[[i [Hi [Hk Hp]]]|H]]; [left; exact H| |].
         + right. left. exists i. split; [lia|]. split; assumption.
-        + right. right. right. subst k. apply key_eqb_refl. }
+        + right. right. right. right. subst k. apply key_eqb_refl. }
     assert (Fprob : forall k e1, e_prob (app_ops OPS k e1) = adj_prob T1 (n - 1 - b) (S b) K p0 k (e_prob e1)).
     { intros k e1. rewrite HOPS. rewrite !app_ops_app. cbn [app_ops fold_left fst snd].
       assert (E : forall e0, e_prob (if key_eqb (tl K) k then interp OExt e0 else e0) = e_prob e0) by (intros e0; destruct (key_eqb (tl K) k); reflexivity).
-      rewrite E. fold (app_ops (map (fun j => (firstn j K, OLeft)) (seq b (n - b))) k (app_ops (adj_ops T1 (n - 1 - b) (S b) K p0) k e1)).
+      rewrite E. fold (app_ops R k (app_ops (map (fun j => (firstn j K, OLeft)) (seq b (n - b))) k (app_ops (adj_ops T1 (n - 1 - b) (S b) K p0) k e1))).
+      rewrite (rest_only_prob R k _ HRo).
       rewrite left_ops_prob. apply adj_prob_spec. }
     (* ---- bo and prob of the entries the updates start from *)
     assert (T1bo : forall k e1, T1 k = Some e1 -> e_bo e1 = bo_of M k).
@@ -673,17 +723,17 @@ Section Whole.
   Let M := M_of grams.
   Hypothesis Hwords : forall g w, In g grams -> In w (g_key g) -> M [w] <> None.
 
-  Lemma add_grams_pq : forall gs n pre post t t', grams = pre ++ gs ++ post -> (2 <= n <= N_order)%nat ->
+  Lemma add_grams_pq : forall rm gs n pre post t t', grams = pre ++ gs ++ post -> (2 <= n <= N_order)%nat ->
     (forall g, In g gs -> length (g_key g) = n) ->
     PQ N_order M (alookup t) n -> (forall g', In g' pre -> alookup t (g_key g') <> None) ->
-    add_grams buckets false n gs t = Loaded t' ->
+    add_grams buckets rm n gs t = Loaded t' ->
     PQ N_order M (alookup t') n /\ (forall g', In g' (pre ++ gs) -> alookup t' (g_key g') <> None).
   Proof.
-    induction gs as [|g gs IH]; intros n pre post t t' Hg Hn Hlen Q Hpre Hadd.
+    intros rm. induction gs as [|g gs IH]; intros n pre post t t' Hg Hn Hlen Q Hpre Hadd.
     - cbn [add_grams] in Hadd. injection Hadd as <-. rewrite app_nil_r. split; assumption.
-    - cbn [add_grams] in Hadd. destruct (add_gram buckets false n g t) as [t1|] eqn:E1; [|discriminate].
+    - cbn [add_grams] in Hadd. destruct (add_gram buckets rm n g t) as [t1|] eqn:E1; [|discriminate].
       assert (Hin : In g grams) by (rewrite Hg; apply in_or_app; right; left; reflexivity).
-      destruct (add_gram_pq N_order M buckets n g t t1 Q Hn (Hlen g (or_introl eq_refl))) as [Q1 [HK Hmono]].
+      destruct (add_gram_pq N_order M buckets rm n g t t1 Q Hn (Hlen g (or_introl eq_refl))) as [Q1 [HK Hmono]].
       + intros w Hw. apply (q_low N_order M _ n Q); [apply (Hwords g w Hin Hw)|cbn [length]; lia].
       + intros HnoK. unfold M. rewrite Hg. cbn [app]. apply M_of_first.
         intros g' Hin' Heq. apply (Hpre g' Hin'). rewrite Heq. exact HnoK.
@@ -710,18 +760,18 @@ Section Whole.
       + specialize (Hpost g Hin). rewrite Hk in Hpost. lia.
   Qed.
 
-  Lemma add_sections_pq : forall secs n pre t t', grams = pre ++ concat secs -> (2 <= n)%nat -> (n + length secs <= S N_order)%nat ->
+  Lemma add_sections_pq : forall rm secs n pre t t', grams = pre ++ concat secs -> (2 <= n)%nat -> (n + length secs <= S N_order)%nat ->
     (forall i sec, nth_error secs i = Some sec -> forall g, In g sec -> length (g_key g) = (n + i)%nat) ->
     PQ N_order M (alookup t) n -> (forall g', In g' pre -> alookup t (g_key g') <> None) ->
-    add_sections buckets false n secs t = Loaded t' ->
+    add_sections buckets rm n secs t = Loaded t' ->
     PQ N_order M (alookup t') (n + length secs) /\ (forall g', In g' grams -> alookup t' (g_key g') <> None).
   Proof.
-    induction secs as [|sec secs IH]; intros n pre t t' Hg Hn HN Hsec Q Hpre Hadd.
+    intros rm. induction secs as [|sec secs IH]; intros n pre t t' Hg Hn HN Hsec Q Hpre Hadd.
     - cbn [add_sections] in Hadd. injection Hadd as <-. cbn [length]. rewrite Nat.add_0_r. split; [exact Q|].
       intros g' Hin. apply Hpre. rewrite Hg in Hin. cbn [concat] in Hin. rewrite app_nil_r in Hin. exact Hin.
-    - cbn [add_sections] in Hadd. destruct (add_grams buckets false n sec t) as [t1|] eqn:E1; [|discriminate].
+    - cbn [add_sections] in Hadd. destruct (add_grams buckets rm n sec t) as [t1|] eqn:E1; [|discriminate].
       cbn [concat] in Hg. cbn [length] in HN.
-      destruct (add_grams_pq sec n pre (concat secs) t t1 Hg ltac:(lia)) as [Q1 H1]; try assumption.
+      destruct (add_grams_pq rm sec n pre (concat secs) t t1 Hg ltac:(lia)) as [Q1 H1]; try assumption.
       { intros g Hin. rewrite (Hsec 0%nat sec eq_refl g Hin). lia. }
       assert (Q1' : PQ N_order M (alookup t1) (S n)).
       { apply (pq_next_order _ n (pre ++ sec) (concat secs)); [rewrite Hg; apply app_assoc|exact Q1|exact H1|].
@@ -793,7 +843,7 @@ Proof.
   cbn [map alookup fst snd]. destruct (key_eqb (g_key g0) k); [discriminate|apply IH; exact H].
 Qed.
 
-Theorem load_probing_inv : forall N_order buckets (saw_unk : bool) unk_prob (unigrams : list gram) (higher : list (list gram)) t,
+Theorem load_probing_inv : forall N_order buckets (rm saw_unk : bool) unk_prob (unigrams : list gram) (higher : list (list gram)) t,
   (2 <= N_order)%nat -> length higher = (N_order - 1)%nat ->
   let U := if saw_unk then unigrams else unk_gram unk_prob :: unigrams in
   let M := M_of (U ++ concat higher) in
@@ -801,11 +851,11 @@ Theorem load_probing_inv : forall N_order buckets (saw_unk : bool) unk_prob (uni
   (forall i sec, nth_error higher i = Some sec -> forall g, In g sec -> length (g_key g) = (2 + i)%nat) ->
   (forall g w, In g (U ++ concat higher) -> In w (g_key g) -> M [w] <> None) ->
   (saw_unk = false -> unk_prob < 0) ->
-  load_probing buckets false saw_unk unk_prob unigrams higher = Loaded t ->
+  load_probing buckets rm saw_unk unk_prob unigrams higher = Loaded t ->
   TInv N_order (alookup t) M.
 Proof.
-  intros N_order buckets saw_unk unk_prob unigrams higher t Hord Hlenh U M HU Hsec Hwords Hunk Hload.
-  unfold load_probing in Hload. cbn [andb] in Hload.
+  intros N_order buckets rm saw_unk unk_prob unigrams higher t Hord Hlenh U M HU Hsec Hwords Hunk Hload.
+  unfold load_probing in Hload.
   set (L := (if saw_unk then [] else [(unk_gram unk_prob, initial_unk unk_prob)]) ++ map (fun g => (g, uni_entry g)) unigrams).
   assert (HL1 : map fst L = U).
   { unfold L, U. rewrite map_app. rewrite map_map. cbn [fst]. rewrite map_id. destruct saw_unk; reflexivity. }
@@ -849,12 +899,27 @@ Proof.
       + unfold M_of. destruct (find (fun g0 => key_eqb (g_key g0) k) U) eqn:Ef; [discriminate|].
         exfalso. apply (find_none _ _ Ef g) in Hin. rewrite Hgk, key_eqb_refl in Hin. discriminate.
       + specialize (Hhi g Hin). rewrite Hgk in Hhi. lia. }
-  destruct (add_sections buckets false 2 higher t0) as [t1|] eqn:E1; [|discriminate]. injection Hload as <-.
+  (* REST_MAX: the last listed unigram's rest cost stays 0 when <unk> is not listed -- only a rest cost *)
+  set (t0' := if andb rm (negb saw_unk)
+              then match rev unigrams with g :: _ => aupdate t0 (g_key g) zero_rest | [] => t0 end
+              else t0) in Hload.
+  assert (Hrel : forall k, match alookup t0 k, alookup t0' k with
+                           | Some e, Some e' => e_prob e' = e_prob e /\ e_bo e' = e_bo e /\ e_left e' = e_left e /\ (e_ext e = true -> e_ext e' = true)
+                           | None, None => True
+                           | _, _ => False
+                           end).
+  { intros k. unfold t0'. destruct (andb rm (negb saw_unk)); [|destruct (alookup t0 k); [repeat split; auto|exact I]].
+    destruct (rev unigrams) as [|g0 ?]; [destruct (alookup t0 k); [repeat split; auto|exact I]|].
+    rewrite alookup_aupdate. destruct (key_eqb (g_key g0) k); destruct (alookup t0 k); cbn [option_map]; try exact I; repeat split; auto. }
+  assert (Q0' : PQ N_order M (alookup t0') 2) by (apply (pq_ext_raise N_order M (alookup t0)); assumption).
+  destruct (add_sections buckets rm 2 higher t0') as [t1|] eqn:E1; [|discriminate]. injection Hload as <-.
   assert (A1 : (2 <= 2)%nat) by lia. assert (A2 : (2 + length higher <= S N_order)%nat) by lia.
-  destruct (add_sections_pq N_order Hord buckets (U ++ concat higher) Hwords higher 2 U t0 t1 eq_refl A1 A2 Hsec Q0) as [Q1 Hall].
-  { intros g' Hin. rewrite Ht0. apply uni_table_present. rewrite HL1.
-    unfold M_of. destruct (find (fun g0 => key_eqb (g_key g0) (g_key g')) U) eqn:Ef; [discriminate|].
-    exfalso. apply (find_none _ _ Ef g') in Hin. rewrite key_eqb_refl in Hin. discriminate. }
+  destruct (add_sections_pq N_order Hord buckets (U ++ concat higher) Hwords rm higher 2 U t0' t1 eq_refl A1 A2 Hsec Q0') as [Q1 Hall].
+  { intros g' Hin. assert (Hp0 : alookup t0 (g_key g') <> None).
+    { rewrite Ht0. apply uni_table_present. rewrite HL1.
+      unfold M_of. destruct (find (fun g0 => key_eqb (g_key g0) (g_key g')) U) eqn:Ef; [discriminate|].
+      exfalso. apply (find_none _ _ Ef g') in Hin. rewrite key_eqb_refl in Hin. discriminate. }
+    specialize (Hrel (g_key g')). destruct (alookup t0 (g_key g')); [|congruence]. destruct (alookup t0' (g_key g')); [discriminate|contradiction]. }
   { exact E1. }
   (* the final touch on <unk> changes nothing the invariant speaks about *)
   assert (Q2 : PQ N_order M (alookup (if saw_unk then t1 else aupdate t1 [0%N] (final_unk unk_prob))) (2 + length higher)).
